@@ -55,6 +55,9 @@ pub struct GenOpts {
     pub force_slots: bool,
     /// force a single vehicle type or decoupled depot totals (C14 domain)
     pub decoupled_depots: bool,
+    /// aim at several rotation cycles per type: few types, several slots with several tracks,
+    /// a generous allowance (vehicles that visit a slot get a negative counter and start a cycle)
+    pub rotation_rich: bool,
 }
 
 impl GenOpts {
@@ -64,6 +67,7 @@ impl GenOpts {
             max_departures,
             force_slots: false,
             decoupled_depots: false,
+            rotation_rich: false,
         }
     }
 }
@@ -91,6 +95,7 @@ pub fn generate(rng: &mut Rng, opts: &GenOpts, tag: &str) -> Value {
     // ---------------------------------------------------------------- vehicle types
     let ntypes = match p {
         Profile::Degenerate => rng.usize(1, 2),
+        _ if opts.rotation_rich => rng.usize(1, 2),
         _ => rng.usize(1, 3),
     };
     let mut types = Vec::new();
@@ -311,6 +316,7 @@ pub fn generate(rng: &mut Rng, opts: &GenOpts, tag: &str) -> Value {
     let window_len: i64 = if ndep > 12 { 18 * 3600 } else { rng.range(2, 14) * 3600 };
     // ---------------------------------------------------------------- maintenance
     let with_slots = opts.force_slots
+        || opts.rotation_rich
         || match p {
             Profile::Maint => true,
             Profile::Degenerate => rng.chance(1, 3),
@@ -324,6 +330,7 @@ pub fn generate(rng: &mut Rng, opts: &GenOpts, tag: &str) -> Value {
     let tight = rng.chance(1, 2);
     if with_slots {
         let nslots = match p {
+            _ if opts.rotation_rich => rng.usize(2, 4),
             Profile::Maint => rng.usize(1, 4),
             _ => rng.usize(1, 2),
         };
@@ -342,7 +349,7 @@ pub fn generate(rng: &mut Rng, opts: &GenOpts, tag: &str) -> Value {
                 }
                 chain_end = Some((start + len, l));
             }
-            let tracks = rng.range(1, 3) as u64;
+            let tracks = if opts.rotation_rich { rng.range(2, 3) as u64 } else { rng.range(1, 3) as u64 };
             total_tracks += tracks;
             placed.push((start, start + len, l, l));
             slots.push(json!({
@@ -456,7 +463,7 @@ pub fn generate(rng: &mut Rng, opts: &GenOpts, tag: &str) -> Value {
         }));
     }
 
-    let maintenance_param: Option<u64> = match rng.below(if p == Profile::Maint { 5 } else { 6 }) {
+    let maintenance_param: Option<u64> = match if opts.rotation_rich { 3 + rng.below(2) } else { rng.below(if p == Profile::Maint { 5 } else { 6 }) } {
         0 => None,
         1 => Some(0),
         2 => Some(rng.range(1, 60) as u64 * 1000), // tight
